@@ -10,6 +10,7 @@ and :class:`fpy2.transform.LiftContext`.
 """
 
 from dataclasses import dataclass
+from fractions import Fraction
 from typing import TypeAlias
 
 from ..ast.fpyast import *
@@ -17,7 +18,7 @@ from ..ast.visitor import DefaultVisitor
 from ..fpc_context import FPCoreContext
 from ..interpret import Interpreter, Value, get_default_interpreter
 from ..interpret.value import to_value, unwrap_foreign
-from ..number import REAL
+from ..number import REAL, Float
 from .define_use import DefineUse, DefineUseAnalysis, Definition, DefSite
 
 
@@ -42,6 +43,23 @@ class PartialEvalInfo:
     by_def: dict[Definition, Value]
     by_expr: dict[Expr, Value]
     def_use: DefineUseAnalysis
+
+
+def _same_value(a, b) -> bool:
+    """Are two known values interchangeable?  `==` is not the test: it equates
+    `-0.0` with `+0.0`, and folding one where the other is computed flips the
+    sign of a later `1 / x`."""
+    match a, b:
+        case (list(), list()) | (tuple(), tuple()):
+            return len(a) == len(b) and all(_same_value(x, y) for x, y in zip(a, b))
+        case (Float() | Fraction(), Float() | Fraction()):
+            return a == b and _signbit(a) == _signbit(b)
+        case _:
+            return type(a) is type(b) and a == b
+
+
+def _signbit(x) -> bool:
+    return x.s if isinstance(x, Float) else x < 0
 
 
 class _PartialEvalInstance(DefaultVisitor):
@@ -109,7 +127,7 @@ class _PartialEvalInstance(DefaultVisitor):
             return a
         if a is _TOP or b is _TOP:
             return _TOP
-        return a if a == b else _TOP
+        return a if _same_value(a, b) else _TOP
 
     def _merge_branch_phis(self, stmt: Stmt):
         """Merge phis after an ``if`` / ``if-else``: both branches are
